@@ -40,8 +40,10 @@ META = {
                   "50k real draws on small squares within 8 sigma of uniform, and for every extended width 2..1024 (incl. "
                   "non-powers of two) 4096 drawn coordinates must hit each of the 4x4 blocks of rows x columns within 8 sigma "
                   "of its area share (false-alarm probability < 1e-10 overall), distinctness and bounds "
-                  "always. Datastore I/O errors, Prune and a change of the sample amount between restarts are outside "
-                  "the model. Small-scope: areas 4 and 16, <=3 concurrent callers, 2 normal heights.",
+                  "always. A restarted instance may be configured with another sample amount and records without "
+                  "coordinates may be planted under a block's key (model: MCLight_kchange.cfg; driver: directed cases): the "
+                  "verdict available is demanded to rest on >= min(amount of the running instance, area) delivered coordinates. "
+                  "Datastore I/O errors and Prune are outside the model. Small-scope: areas 4 and 16, <=3 concurrent callers, 2 normal heights.",
     "design_ref": "DESIGN.md section 5 C03, section 6 #8 #9, section 11",
 }
 
@@ -95,6 +97,7 @@ CONSTANTS
   TracePath = "%(path)s"
   Coords = {%(coords)s}
   K = %(k)d
+  Ks = {}
   Callers = {1, 2, 3}
   Heights = {1, 2, 3, 4}
   NoCaller = 0
@@ -203,9 +206,10 @@ def run(ctx):
     # 1. exhaustive model checking of the repaired design
     cfgs = ["MCLight_quick.cfg"] if quick else ["MCLight_k1.cfg", "MCLight_k2.cfg", "MCLight_k3.cfg", "MCLight_k5.cfg"]
     cfgs.append("MCLight_special.cfg")
+    cfgs.append("MCLight_kchange.cfg")
     for c in cfgs:
         r = ctx.tlc(SPEC, "light/" + c, workers=min(16, vlib.NCPU), timeout=1500, deadlock=False, coverage=not quick)
-        if r.ok and not quick and c != "MCLight_special.cfg":
+        if r.ok and not quick and c not in ("MCLight_special.cfg", "MCLight_kchange.cfg"):
             # TLC names a sub-action after the innermost or the outermost operator: accept either
             groups = [["Call"], ["StartSession"], ["FindHeld"], ["Wake"], ["WaitAbort"], ["LoadOrDraw", "LoadOrDrawWith"],
                       ["AllDone"], ["GetterEnter"], ["GetterStep", "GetterReturn"], ["ReturnNothing"], ["PersistAndReturn"],
@@ -253,6 +257,8 @@ def run(ctx):
             "ret_kind_error", "cancelled_call_returned_cancelled", "available_verdicts", "persisted_results_checked",
             "distribution_draws", "steps_applied_cex_orig", "steps_applied_cex_crash", "steps_applied_tlc",
             "steps_applied_directed", "waiter_cancelled", "call_after_cancelled_waiter", "blocked_callers_confirmed_parked", "coverage_widths", "coverage_blocks_checked",
+            "verdict_invalid", "restarts_with_other_sample_amount", "planted_records", "scenarios_reconfigured",
+            "scenarios_planted",
             "crash_lost_unflushed_result", "verdict_outside"]
     missing = [k for k in need if c.get(k, 0) <= 0]
     if missing and rep.get("summary") is not None and rep.get("counters"):
